@@ -14,6 +14,7 @@ import (
 	gerrors "github.com/acquirecloud/golibs/errors"
 	"google.golang.org/grpc/codes"
 	"google.golang.org/grpc/status"
+	"google.golang.org/protobuf/proto"
 	"verifharness/internal/vstat"
 )
 
@@ -159,6 +160,11 @@ func keysOnly(o *Obj) *Obj {
 // rawChain returns the chain with every text decoded (the chain itself when no text holds an escaped byte).
 func rawChain(ch Chain) Chain {
 	dirty := ch.Obj != nil && objAny(ch.Obj, hasEsc)
+	if ch.PB != nil {
+		for _, x := range ch.PB.B {
+			dirty = dirty || hasEsc(x)
+		}
+	}
 	for _, w := range ch.Wraps {
 		for _, t := range w.texts() {
 			dirty = dirty || hasEsc(t)
@@ -181,6 +187,7 @@ func rawChain(ch Chain) Chain {
 	}
 	ch.Wraps = ws
 	ch.Obj = rawObj(ch.Obj)
+	ch.PB = rawPB(ch.PB)
 	return ch
 }
 
@@ -403,6 +410,9 @@ type Chain struct {
 	// kind, compared, and then OVERWRITTEN in place by the caller - what ExtractObject filled in belongs to the caller -
 	// before the other checks of the stage and all later stages run. "" = only the plain extraction into a fresh *Obj.
 	Into string `json:"into,omitempty"`
+	// PB (instead of Obj): the embedded object is a generated protobuf message, see pb.go. The plain extraction of every
+	// stage then goes into a fresh message of the same type. Padding places "obj.*" do not apply to it.
+	PB *PB `json:"pb,omitempty"`
 }
 
 // IntoKinds are the kinds of extraction targets:
@@ -415,6 +425,10 @@ type Chain struct {
 //	blob    a named []byte type whose UnmarshalJSON keeps a copy of the JSON text (as json.Unmarshaler asks), re-used
 var IntoKinds = []string{"obj", "any", "map", "raw", "rawcap", "blob"}
 
+// PBIntoKinds are the kinds of extraction targets of a chain whose object is a generated message: "pb" = a message of
+// the same type, fresh per stage, overwritten in place through protoreflect afterwards; the others as above.
+var PBIntoKinds = []string{"pb", "any", "map", "raw", "rawcap", "blob"}
+
 // blob keeps the JSON text it is asked to decode; it copies it, as the documentation of json.Unmarshaler demands.
 type blob []byte
 
@@ -425,12 +439,13 @@ type sink struct {
 	kind string
 	raw  json.RawMessage
 	bl   blob
+	pb   *PB // kind "pb": the description of the embedded message
 }
 
 func newSink(kind string) *sink {
 	s := &sink{kind: kind}
 	switch kind {
-	case "obj", "any", "map", "raw", "blob":
+	case "obj", "any", "map", "raw", "blob", "pb":
 	case "rawcap":
 		s.raw = append(make(json.RawMessage, 0, 4096), `{"stale":"left over from an earlier use"}`...)
 	default:
@@ -487,12 +502,18 @@ func scribbleAny(v any, depth int) {
 
 // check extracts the object of e into the target, compares it with the embedded one - decoded by encoding/json into a
 // target of the same kind - and then overwrites the extracted value in place.
-func (s *sink) check(stage string, e error, want *Obj, wantJSON []byte) *vstat.Violation {
+func (s *sink) check(stage string, e error, want any, wantJSON []byte) *vstat.Violation {
 	var ok bool
 	var got, ref []byte
 	refOK := true
 	var scribble func()
 	switch s.kind {
+	case "pb":
+		got, v := extractPB(stage, "the caller's own", e, s.pb, want.(proto.Message), wantJSON)
+		if v == nil {
+			scribbleMsg(got.ProtoReflect(), 0)
+		}
+		return v
 	case "obj":
 		var o Obj
 		ok = gerrors.ExtractObject(e, &o)
@@ -597,6 +618,9 @@ type Info struct {
 	ObjLen    int  // longest JSON text of an embedded object
 	ObjEdge   bool // ... ending within 8 bytes below .. 2 bytes above a multiple of 512
 	Into      map[string]bool // kinds of extraction targets that were filled and then overwritten by the caller
+	PBKind    string          // the embedded object is a generated protobuf message of this kind
+	PBWKT     bool            // ... that is a well-known type or holds one in a populated field
+	PBFlat    bool            // ... that is not and holds none
 	TextRaw   bool            // a wrap text holds bytes that are not valid UTF-8
 	TextFFFD  bool            // a wrap text holds a genuine U+FFFD
 	ObjRaw    bool            // a string of an embedded object holds bytes that are not valid UTF-8 (its JSON text has U+FFFD there)
@@ -695,7 +719,7 @@ func extractCheck(stage string, e error, want *Obj, wantJSON []byte) *vstat.Viol
 	return nil
 }
 
-func js(o *Obj) string {
+func js(o any) string {
 	b, _ := json.Marshal(o)
 	return string(b)
 }
@@ -737,6 +761,15 @@ type built struct {
 	repaired bool
 	lossy    bool  // a string of the object is not valid UTF-8: its JSON text holds U+FFFD in place of the invalid bytes
 	sink     *sink // the caller's extraction target (Into), nil: none
+	msg      proto.Message // PB chains: a message built from the same description as the embedded one, never given to the library
+}
+
+// object returns the value that is handed to EmbedObject: the *Obj, or a newly built message (by pointer, as users do).
+func (ch Chain) object() any {
+	if ch.PB != nil {
+		return ch.PB.build()
+	}
+	return ch.Obj
 }
 
 func validate(ch Chain) {
@@ -750,8 +783,14 @@ func validate(ch Chain) {
 	if ch.Embed > len(ch.Wraps) {
 		panic("embed level beyond the chain")
 	}
-	if ch.Embed >= 0 && ch.Obj == nil {
-		panic("embed without an object")
+	if ch.Embed >= 0 && (ch.Obj == nil) == (ch.PB == nil) {
+		panic("embed needs exactly one of an object and a proto message")
+	}
+	if ch.PB != nil {
+		validatePB(ch.PB)
+	}
+	if ch.Into == "obj" && ch.PB != nil || ch.Into == "pb" && ch.PB == nil {
+		panic("extraction target kind does not fit the object")
 	}
 	if ch.Into != "" && ch.Embed < 0 {
 		panic("extraction target without an object")
@@ -780,7 +819,7 @@ func assemble(ch Chain) (e, eEmb error, repaired bool) {
 	markers := 0
 	for k := 0; k <= len(ch.Wraps); k++ {
 		if ch.Embed == k {
-			e = gerrors.EmbedObject(ch.Obj, e)
+			e = gerrors.EmbedObject(ch.object(), e)
 			eEmb = e
 			markers = 2
 		}
@@ -805,6 +844,9 @@ func assemble(ch Chain) (e, eEmb error, repaired bool) {
 // padded returns the chain with the padding asked for by Target/Pad applied (a copy; the case is not modified).
 func padded(ch Chain) Chain {
 	target := ch.Target
+	if ch.PB != nil && (ch.ObjTarget > 0 || strings.HasPrefix(ch.Pad, "obj.")) {
+		return ch // a generated message has no padding place
+	}
 	if ch.ObjTarget > 0 {
 		if ch.Embed < 0 || !strings.HasPrefix(ch.Pad, "obj.") {
 			return ch
@@ -877,6 +919,14 @@ func padded(ch Chain) Chain {
 	return ch
 }
 
+// want is the embedded value for comparisons and messages.
+func (b *built) want() any {
+	if b.msg != nil {
+		return b.msg
+	}
+	return b.ch.Obj
+}
+
 func embedName(ch Chain) string {
 	switch {
 	case ch.Embed < 0:
@@ -933,8 +983,22 @@ func runChains(chs []Chain, eager bool, info *Info) *vstat.Violation {
 			info.ObjEscHTML = info.ObjEscHTML || objAny(ch.Obj, looksLikeHTMLEscape)
 			info.ObjHTMLChar = info.ObjHTMLChar || objAny(ch.Obj, func(s string) bool { return strings.ContainsAny(s, "<>&\u2028\u2029") })
 			info.ObjQuote = info.ObjQuote || objAny(ch.Obj, func(s string) bool { return strings.Contains(s, `"`) })
+			if ch.PB != nil {
+				b.msg = ch.PB.build()
+				info.PBKind = ch.PB.Kind
+				if wellKnown(b.msg.ProtoReflect(), 0) {
+					info.PBWKT = true
+				} else {
+					info.PBFlat = true
+				}
+				info.ObjMarker = info.ObjMarker || pbAny(ch.PB, func(s string) bool { return strings.Contains(s, marker) })
+				info.ObjBackslash = info.ObjBackslash || pbAny(ch.PB, func(s string) bool { return strings.Contains(s, `\`) })
+				info.ObjHTMLChar = info.ObjHTMLChar || pbAny(ch.PB, func(s string) bool { return strings.ContainsAny(s, "<>&\u2028\u2029") })
+				info.ObjQuote = info.ObjQuote || pbAny(ch.PB, func(s string) bool { return strings.Contains(s, `"`) })
+			}
 			if ch.Into != "" {
 				b.sink = newSink(ch.Into)
+				b.sink.pb = ch.PB
 				if info.Into == nil {
 					info.Into = map[string]bool{}
 				}
@@ -948,7 +1012,7 @@ func runChains(chs []Chain, eager bool, info *Info) *vstat.Violation {
 		if b.ch.Embed >= 0 {
 			info.BatchEmb++
 			var err error
-			if b.wantJSON, err = json.Marshal(b.ch.Obj); err != nil {
+			if b.wantJSON, err = json.Marshal(b.ch.object()); err != nil {
 				panic("object is not marshalable: " + err.Error())
 			}
 			info.ObjMarker = info.ObjMarker || objHasMarker(b.ch.Obj)
@@ -1099,7 +1163,15 @@ func checkChain(b *built, info *Info) *vstat.Violation {
 		if b.sink == nil {
 			return nil
 		}
-		return b.sink.check(stage, e, c.Obj, b.wantJSON)
+		return b.sink.check(stage, e, b.want(), b.wantJSON)
+	}
+	// plain: the plain extraction of a stage - into a fresh *Obj, or into a fresh message of the embedded message's type
+	plain := func(stage string, e error) *vstat.Violation {
+		if c.PB != nil {
+			_, v := extractPB(stage, "a fresh", e, c.PB, b.msg, b.wantJSON)
+			return v
+		}
+		return extractCheck(stage, e, c.Obj, b.wantJSON)
 	}
 	if c.Embed >= 0 {
 		if b.lossy {
@@ -1115,13 +1187,13 @@ func checkChain(b *built, info *Info) *vstat.Violation {
 		if v := own("result of EmbedObject", b.eEmb); v != nil {
 			return v
 		}
-		if v := extractCheck("result of EmbedObject", b.eEmb, c.Obj, b.wantJSON); v != nil {
+		if v := plain("result of EmbedObject", b.eEmb); v != nil {
 			return v
 		}
 		// generator sanity, after the library had its say: a marker count other than 2 here means the text
 		// of the chain itself changed (that is what extractCheck reports) or the generator is wrong
 		if strings.Count(msg, marker) != markers {
-			if v := extractCheck("after fmt wrapping", e, c.Obj, b.wantJSON); v != nil {
+			if v := plain("after fmt wrapping", e); v != nil {
 				return v
 			}
 			panic("generator bug: marker count")
@@ -1129,7 +1201,7 @@ func checkChain(b *built, info *Info) *vstat.Violation {
 		if v := own("after fmt wrapping", e); v != nil {
 			return v
 		}
-		if v := extractCheck("after fmt wrapping", e, c.Obj, b.wantJSON); v != nil {
+		if v := plain("after fmt wrapping", e); v != nil {
 			return v
 		}
 	}
@@ -1157,13 +1229,13 @@ func checkChain(b *built, info *Info) *vstat.Violation {
 		if v := own("after GRPCWrap", g); v != nil {
 			return v
 		}
-		if v := extractCheck("after GRPCWrap", g, c.Obj, b.wantJSON); v != nil {
+		if v := plain("after GRPCWrap", g); v != nil {
 			return v
 		}
 		if v := own("after GRPCWrap twice", g2); v != nil {
 			return v
 		}
-		if v := extractCheck("after GRPCWrap twice", g2, c.Obj, b.wantJSON); v != nil {
+		if v := plain("after GRPCWrap twice", g2); v != nil {
 			return v
 		}
 		// the caller's writes must not have reached the errors: everything once more, from the innermost error outwards
@@ -1173,7 +1245,7 @@ func checkChain(b *built, info *Info) *vstat.Violation {
 				e     error
 			}{{"result of EmbedObject, after the extracted values were overwritten", b.eEmb}, {"after fmt wrapping, after the extracted values were overwritten", e},
 				{"after GRPCWrap, after the extracted values were overwritten", g}, {"a fresh GRPCWrap of the chain, after the extracted values were overwritten", gerrors.GRPCWrap(e)}} {
-				if v := extractCheck(st.stage, st.e, c.Obj, b.wantJSON); v != nil {
+				if v := plain(st.stage, st.e); v != nil {
 					return v
 				}
 			}
@@ -1319,9 +1391,14 @@ func (i Info) Classes() []string {
 		c = append(c, "objjson:504..2047")
 	}
 	add(i.ObjEdge, "objjson_ends_8_below_to_2_above_a_multiple_of_512")
-	for _, k := range IntoKinds {
+	for _, k := range append([]string{"pb"}, IntoKinds...) {
 		add(i.Into[k], "extracted_into_"+k+"_then_overwritten_by_the_caller")
 	}
+	if i.PBKind != "" {
+		c = append(c, "object_is_generated_proto_message", "proto_message:"+i.PBKind)
+	}
+	add(i.PBWKT, "proto_message_is_or_holds_well_known_type")
+	add(i.PBFlat, "proto_message_flat")
 	add(i.TextRaw, "wrap_text_not_valid_utf8")
 	add(i.TextFFFD, "wrap_text_has_U+FFFD")
 	add(i.ObjBackslash, "object_string_has_backslash")
